@@ -163,4 +163,6 @@ inline int run_main(int argc, char **argv) {
 
 }  // namespace vh
 
+#ifndef VH_CUSTOM_MAIN
 int main(int argc, char **argv) { return vh::run_main(argc, argv); }
+#endif
